@@ -22,6 +22,7 @@ func init() {
 			"PV-ROLE the scanner reads Tokenize's own parameter; PV-FRESH parse methods write no parser field but the integer position",
 			"PV-FRESH BinOpExpr.Modifier comes from the modifier parse of the same operator",
 			"PV-API string literal values come from strutil.Unquote only; PV-ORDER stage lists are append-only in the parser",
+			"PV-WHOLE no parser helper result is dropped by its caller (a consumed token sequence ends up in the tree or is an error)",
 		},
 		NotDecided: []string{"acceptance of the whole grammar / independence from layout, comments and redundant parentheses beyond the look-ahead rule", "and/or precedence inside label predicates", "numeric literal values, string unquoting (strutil.Unquote), duration/bytes literal values"},
 		Rules: func(r *Run) {
@@ -51,6 +52,7 @@ func init() {
 			ruleBinOpModifierFresh(r)
 			ruleUnquoteOnly(r)
 			ruleParserKeepsStageOrder(r)
+			ruleParserResultsUsed(r)
 		},
 	})
 }
